@@ -20,6 +20,9 @@ func fieldIdx(st *types.Struct, name string, pred func(types.Type) bool) int {
 			return i
 		}
 	}
+	if i, ok := fieldAlias[st][name]; ok {
+		return i
+	}
 	if pred != nil {
 		found := -1
 		for i := 0; i < st.NumFields(); i++ {
@@ -36,7 +39,7 @@ func fieldIdx(st *types.Struct, name string, pred func(types.Type) bool) int {
 }
 
 func typeIs(s string) func(types.Type) bool {
-	return func(t types.Type) bool { return types.TypeString(t, nil) == s }
+	return func(t types.Type) bool { return canonTypeString(t) == s }
 }
 
 type readerLayout struct {
